@@ -20,6 +20,8 @@ func runStream(name string, args []string) {
 		streamHt(o)
 	case "http":
 		streamHTTP(o)
+	case "index":
+		streamIndex(o)
 	case "trie":
 		streamTrie(o)
 	case "conc":
